@@ -52,7 +52,7 @@ import numpy as np
 
 from ..cert import DM, chol_factor, frac_json
 from ..common import CorrespondenceBroken, InfraError
-from ..exact import Pure, call_rng, describe, present_list, present_nd
+from ..exact import Pure, call_rng, describe, present_list, present_nd, strict_fp_call
 from ..pool import Result, fold, run_pool, worker_driver
 from .. import qgen
 
@@ -73,7 +73,11 @@ RULE = ("extended games: referee dimension 2..3, |A|,|B|,|X|,|Y| in 1..3 (at mos
         "programs are called a second time on the same object and must return the same value; "
         "ext_reps: fixed list of (shape, reps) with reps 2..3, unequal alphabets, d in 2..3, one generic complex and one random real game per shape plus the Pauli-Y projector game "
         "(reproducer of the float-buffer defect of the reps branch); non-trivial = complex or unequal alphabets; hedge-product: Q = kron(V1 V1^H / 4^k1, V2 V2^H / 4^k2) from random "
-        "integer 4 x r matrices (r in 1..4, real / complex alternating), non-trivial = bracket narrower than 1e-4 and >= 1e-2 away from the trivial bounds; prog_embedding: see c09_prog.py")
+        "integer 4 x r matrices (r in 1..4, real / complex alternating), non-trivial = bracket narrower than 1e-4 and >= 1e-2 away from the trivial bounds; prog_embedding: see c09_prog.py; "
+        "strict_fp (in-process, no solver): ExtendedNonlocalGame(prob, pred, reps) for reps 1..2 followed by unentangled_value() (reps 2 only below 1024 pairs of answer functions) on the corpus games, "
+        "the all-zero predicate, games with zero operators and zero-probability questions (a whole row / column of questions never asked), rank-one operators, one-element alphabets and a few random games "
+        "from a fresh child of the seeded generator (spawned after all other streams), evaluated once in NumPy's default floating-point error state and once with invalid / divide / overflow set to "
+        "raise (harness.exact.strict_fp_call): stored arrays bitwise equal (same dtype), same value (1e-12), value of the all-zero game exactly 0; non-trivial = not all-zero and more than one pair of answer functions")
 ASSUMPTIONS = [
     "toqito computes with the float inputs it is given; the instance certified is their exact dyadic image (difference <= 1e-15 relative)",
     "all programs are solved by cvxpy's default solver (SCS, eps 1e-4): tolerance 1e-3 on returned values (DESIGN.md 4.4), 2e-3 on primal/dual agreement",
@@ -1797,6 +1801,88 @@ def ext_reps(ctx, quick, prs):
     run_pool(ctx, work_reps, tasks)
     ctx.extra.setdefault("phase_wall_s", {})["ext_reps"] = round(_t.time() - t0, 1)
 
+
+# ------------------------------------------------------------------------------------------------
+# strict-fp stream: the value must not depend on NumPy's global floating-point error state (no solver is called here)
+
+
+def strict_fp_games(rng):
+    out = [dict(g) for g in corpus_games()]
+    z = np.zeros((2, 2, 2, 2, 2, 2))
+    out.append({"kind": "all-zero", "prob": np.array([[0.25, 0.25], [0.25, 0.25]]), "pred": z, "cplx": False})
+    out.append({"kind": "all-zero-complex", "prob": np.array([[0.5, 0.5]]), "pred": np.zeros((3, 3, 1, 2, 1, 2), dtype=complex), "cplx": True})
+    # a row of questions that is never asked (zero probability) while its operators are non-zero, and zero operators on asked questions
+    r1 = np.zeros((2, 2, 2, 2, 2, 2), dtype=complex)
+    v = np.array([[1.0], [1j]]) / 2.0
+    r1[:, :, 0, 1, 0, 0] = 2 * v @ v.conj().T        # rank one
+    r1[:, :, 1, 0, 0, 1] = np.array([[1.0, 0.0], [0.0, 0.0]])
+    r1[:, :, 0, 0, 1, 0] = np.eye(2)
+    r1[:, :, 1, 1, 1, 1] = np.eye(2)
+    out.append({"kind": "zero-prob-row", "prob": np.array([[0.75, 0.25], [0.0, 0.0]]), "pred": r1, "cplx": True})
+    out.append({"kind": "zero-prob-column", "prob": np.array([[0.0, 0.5], [0.0, 0.5]]), "pred": r1.real.copy(), "cplx": False})
+    out.append({"kind": "zero-prob-all-but-one", "prob": np.array([[0.0, 0.0, 1.0]]), "pred": gen_game_shape(rng, (2, 1, 3, 1, 3), True)["pred"], "cplx": True})
+    out.append({"kind": "single-cell", "prob": np.array([[1.0]]), "pred": r1[:, :, 0:1, 1:2, 0:1, 0:1].copy(), "cplx": True})
+    for shape, cplx in (((2, 2, 2, 2, 1), True), ((3, 1, 2, 2, 2), False), ((2, 2, 1, 1, 2), True), ((2, 3, 2, 1, 2), False), ((3, 2, 2, 2, 2), True), ((2, 2, 3, 2, 1), False)):
+        g = gen_game_shape(rng, shape, cplx)
+        if rng.integers(2):
+            d, A, B, X, Y = shape
+            g["pred"][:, :, int(rng.integers(A)), :, :, :] = 0      # one answer of Alice never wins
+            g["kind"] = "random-zero-answer"
+        out.append(g)
+    return out
+
+
+def strict_fp_case(ctx, inst, reps, values):
+    from toqito.nonlocal_games.extended_nonlocal_game import ExtendedNonlocalGame
+    prob, pred = np.asarray(inst["prob"], dtype=float), np.asarray(inst["pred"])
+    d, _, A, B, X, Y = pred.shape
+    base = {"part": "strict_fp", "kind": inst["kind"], "shape": [d, A, B, X, Y], "cplx": bool(inst["cplx"]), "reps": reps, "values": bool(values), "prob": prob.tolist(), "pred": _ri(pred)}
+
+    def f():
+        g = ExtendedNonlocalGame(prob.copy(), pred.copy(), reps)
+        return np.array(g.prob_mat), np.array(g.pred_mat), (float(g.unentangled_value()) if values else None)
+
+    zero = not np.any(pred)
+    ctx.case(dict(base, fn="strict_fp"), bool(not zero and A ** X * B ** Y >= 2), f"strict-fp/reps{reps}/{'zero' if zero else ('zero-prob' if np.any(prob == 0) else 'plain')}")
+    fn = f"ExtendedNonlocalGame(prob, pred, {reps})" + (".unentangled_value()" if values else "")
+    info = {"function": fn, "args": base, "theorem": "the value is a function of the arguments (the mirror model repGame / unentConst has no global state)"}
+    with warnings.catch_warnings():
+        warnings.simplefilter("ignore")
+        try:
+            dv = ("ok", f())
+        except Exception as e:  # noqa: BLE001
+            dv = ("raise", f"{type(e).__name__}: {str(e)[:200]}")
+        sv = strict_fp_call(f)
+    if dv[0] == "ok" and sv[0] == "raise":
+        ctx.violation(f"{fn}: value depends on NumPy's floating-point error state (default state: a value; invalid/divide/overflow set to 'raise': {sv[1]}) on a game of shape (d,A,B,X,Y)={d, A, B, X, Y}, kind {inst['kind']}",
+                      dict(info, impl=sv[1], model=str(dv[1][2])))
+        return
+    if dv[0] == "raise":
+        ctx.violation(f"{fn} raises {dv[1]} on a valid game of shape (d,A,B,X,Y)={d, A, B, X, Y}, kind {inst['kind']}", dict(info, exception=dv[1]))
+        return
+    (p0, q0, v0), (p1, q1, v1) = dv[1], sv[1]
+    if p0.dtype != p1.dtype or q0.dtype != q1.dtype or not np.array_equal(p0, p1) or not np.array_equal(q0, q1):
+        ctx.violation(f"{fn}: the stored arrays under the strict floating-point error state differ from those of the default state", dict(info, impl=[str(p1.dtype), str(q1.dtype)], model=[str(p0.dtype), str(q0.dtype)]))
+        return
+    if values and not abs(v0 - v1) <= 1e-12:
+        ctx.violation(f"{fn}: value {v1!r} under the strict floating-point error state differs from the default-state value {v0!r}", dict(info, impl=v1, model=v0))
+        return
+    if values and zero and v0 != 0.0:
+        ctx.violation(f"{fn} = {v0!r} for the all-zero predicate (every average operator is 0, the value is 0)", dict(info, impl=v0, model=0.0, theorem="avgOperator of the zero game"))
+        return
+    ctx.count("strict-fp/agree")
+
+
+def strict_fp_stream(ctx):
+    import time as _t
+    t0 = _t.time()
+    srng = ctx.rng.spawn(1)[0]
+    for g in strict_fp_games(srng):
+        d, _, A, B, X, Y = g["pred"].shape
+        strict_fp_case(ctx, g, 1, True)
+        strict_fp_case(ctx, g, 2, (A * A) ** (X * X) * (B * B) ** (Y * Y) <= 1024)
+    ctx.extra.setdefault("phase_wall_s", {})["strict_fp"] = round(_t.time() - t0, 1)
+
 # ------------------------------------------------------------------------------------------------
 
 
@@ -1901,6 +1987,8 @@ def run(ctx, model_ok=True):
     # ---- feasibility embedding into the captured hedging / cloning programs (helper module c09_prog; draws from the presentation stream only)
     from . import c09_prog
     c09_prog.prog_embedding(ctx, quick, prs)
+    # ---- strict floating-point error state (in-process; a fresh child of the seeded generator, spawned last)
+    strict_fp_stream(ctx)
 
 
 def replay(ctx, rec):
@@ -1934,6 +2022,12 @@ def replay(ctx, rec):
         if inst["cplx"]:
             inst["pred"] = np.asarray(inst["pred"], dtype=complex)
         work_reps({"inst": inst, "reps": a["reps"], "values": True}, res)
+    elif part == "strict_fp":
+        inst = {"kind": a.get("kind", "replay"), "prob": np.array(a["prob"], dtype=float), "pred": _from_ri(a["pred"]), "cplx": a.get("cplx", False)}
+        if inst["cplx"]:
+            inst["pred"] = np.asarray(inst["pred"], dtype=complex)
+        strict_fp_case(ctx, inst, a.get("reps", 1), a.get("values", True))
+        return
     elif part == "hedge":
         work_hedge({"kind": a.get("kind", "replay"), "Q": _from_ri(a["Q"]), "n": a["n"], "cplx": a.get("cplx", False), "pres": a.get("pres")}, res)
     elif part == "clone":
